@@ -9,7 +9,7 @@
 
    The model follows the code as repaired by the fix: commits d5d0029 (errorChan never closed),
    da46feb (trigger listener spawns the shutdown), ddc3dd2/8eb6141 (gate), 977a5ea (SIGHUP),
-   aa7dec7 (monitor first value). *)
+   aa7dec7 (monitor first value), 00876a0 (launch gate; only started runnables are stopped). *)
 From Coq Require Import List NArith Bool Arith.
 Import ListNotations.
 
@@ -505,8 +505,16 @@ Definition obs (l : label) : option event :=
 Definition after_launch (c : config) (i : nat) : main_pc :=
   if Nat.ltb (S i) (nrun c) then MLaunch (S i) else MReap.
 
+(* number of runnables Run() has started (always a prefix of the registration order) *)
+Definition launched (s : state) : nat :=
+  length (filter (fun p => match p with RnNot => false | _ => true end) (rn s)).
+
+Definition sd_next (k : nat) : sd_pc := match k with O => SdCancel | S _ => SdNext k end.
+
+(* the moment Shutdown closes the launch gate (00876a0): from here on Run() starts nothing, and
+   only what it has started so far will be stopped *)
 Definition start_shutdown (c : config) (s : state) : state :=
-  match sd s with SdNot => set_sd s (SdNext (nrun c)) | _ => s end.
+  match sd s with SdNot => set_sd s (sd_next (launched s)) | _ => s end.
 
 Definition store_state (c : config) (s : state) (i : nat) : state :=
   if stateable (spec c i) then set_smap s (upd (smap s) i (Some (cur_at s i))) (subs s) else s.
@@ -559,8 +567,11 @@ Definition step0 (c : config) (s : state) (l : label) : option state :=
     match main s with
     | MLaunch j =>
       if Nat.eqb i j && Nat.ltb i n then
-        Some (set_main (set_rn s i RnLaunched)
-                       (if stateable (spec c i) then MGate i else after_launch c i))
+        match sd s with
+        | SdNot => Some (set_main (set_rn s i RnLaunched)
+                                  (if stateable (spec c i) then MGate i else after_launch c i))
+        | _ => Some (set_main s MReap)      (* the launch gate is closed: leave the start-up loop *)
+        end
       else None
     | _ => None
     end
@@ -668,8 +679,7 @@ Definition step0 (c : config) (s : state) (l : label) : option state :=
     match sd s with
     | SdIn j =>
       if Nat.eqb i j && stop_may_return c s i then
-        Some (with_hist (store_state c (set_sd s (match i with O => SdCancel | S _ => SdNext i end)) i)
-                        (EStopRet i))
+        Some (with_hist (store_state c (set_sd s (sd_next i)) i) (EStopRet i))
       else None
     | _ => None
     end
